@@ -69,6 +69,26 @@ def parseMask (n : Nat) : Option (List Bool) → List Bool
   | none => List.replicate n true
   | some userNonzero => userNonzero.map (!·)
 
+/-- what `parse_mask` stores when no mask is given -/
+inductive MaskDefault where
+  | allUsed        -- `ones_like(data).astype(bool)`
+  | dataNonzero    -- `asarray(data).astype(bool)`: pixels whose datum is exactly 0 would be dropped
+deriving DecidableEq, Repr
+
+/-- how `parse_mask` decides from a user's mask value (an integer here: labels, flags) whether the pixel is used -/
+inductive MaskGiven where
+  | zeroUsed              -- `logical_not(mask.astype(float))`: used iff the value is 0
+  | oneMinusNonzeroUsed   -- `(1 − mask.astype(float)).astype(bool)`: used iff the value is not 1
+deriving DecidableEq, Repr
+
+def MaskGiven.used : MaskGiven → Int → Bool
+  | .zeroUsed, v => v == 0
+  | .oneMinusNonzeroUsed, v => (1 - v) != 0
+
+def MaskDefault.used : MaskDefault → Int → Bool
+  | .allUsed, _ => true
+  | .dataNonzero, datum => datum != 0
+
 /-- prior construction refuses unknown profile / sky types -/
 def priorInit (profileTypes skyTypes : List String) (ptype stype : String) : Outcome :=
   if !skyTypes.contains stype then .assertionError
